@@ -129,12 +129,10 @@ def h_padding(ctx, layout):
     def fib(u, tag, user_con):
         p = {'length': ctx.real(f'{tag}_km', lo=0.1, hi=150), 'length_units': 'km', 'loss_coef': ctx.real(f'{tag}_loss_coef', lo=0.15, hi=0.4),
              'att_in': ctx.real(f'{tag}_user_att_in', lo=0, hi=6)}
-        if user_con:
-            p['con_in'] = ctx.real(f'{tag}_user_con_in', lo=0, hi=2)
-            p['con_out'] = ctx.real(f'{tag}_user_con_out', lo=0, hi=2)
-        else:
-            p['con_in'] = None
-            p['con_out'] = None
+        # each connector loss is given by the operator or left to the library default, independently of the other
+        which = ctx.choice(f'{tag} connectors given', ['both', 'neither'] if not user_con else ['both', 'only con_in', 'only con_out'])
+        p['con_in'] = ctx.real(f'{tag}_user_con_in', lo=0, hi=2) if which in ('both', 'only con_in') else None
+        p['con_out'] = ctx.real(f'{tag}_user_con_out', lo=0, hi=2) if which in ('both', 'only con_out') else None
         return {'uid': u, 'type': 'Fiber', 'type_variety': 'SSMF', 'params': p}
     if layout == 'single':
         els = [amp('a'), fib('f1', 'f1', False), amp('b')]
@@ -148,7 +146,15 @@ def h_padding(ctx, layout):
         order = ['a', 'f1', 'm', 'f2', 'b']
     user = {e['uid']: dict(e['params']) for e in els if e['type'] == 'Fiber'}
     g, by = build_elements(els, eqpt, connections=[{'from_node': x, 'to_node': y} for x, y in zip(order[:-1], order[1:])])
-    add_missing_fiber_attributes(g, eqpt)
+    try:
+        add_missing_fiber_attributes(g, eqpt)
+        err = None
+    except Exception as e:      # noqa
+        err = f'{type(e).__name__}: {e}'
+    ctx.prove('connector/padding completion succeeds for every combination of given and missing settings', err is None,
+              info=dict(layout=layout, error=err, given={k: [x for x in ('con_in', 'con_out') if v.get(x) is not None] for k, v in user.items()}))
+    if err is not None:
+        return
     fibers = [by[u] for u in order if isinstance(by[u], Fiber)]
     for f in fibers:
         u = user[f.uid]
@@ -333,7 +339,8 @@ def h_raman_span(ctx):
     design completes, every amplifier is complete, the Raman span is not padded"""
     from gnpy.core.elements import Edfa, RamanFiber, Fiber
     eqpt = deepcopy(equipment())
-    variant = ctx.choice('position of the Raman span', ['after ROADM', 'after operator amplifier', 'after auto amplifier', 'before a fibre'])
+    variant = ctx.choice('position of the Raman span', ['after ROADM', 'after operator amplifier', 'after auto amplifier', 'before a fibre',
+                                                         'after a fibre', 'after another Raman span'])
     eqpt['Span']['default'].power_mode = ctx.choice('Span power_mode', [True, False])
     loc = {'location': {'city': 'x', 'region': '', 'latitude': 0, 'longitude': 0}}
     rf = {'uid': 'rf', 'type': 'RamanFiber', 'type_variety': 'SSMF', 'metadata': loc,
@@ -353,6 +360,12 @@ def h_raman_span(ctx):
     elif variant == 'after auto amplifier':
         els += [fib('f0'), {'uid': 'amp', 'type': 'Edfa', 'metadata': loc}]
         cx += [('roadm A', 'f0'), ('f0', 'amp'), ('amp', 'rf'), ('rf', 'roadm B')]
+    elif variant == 'after a fibre':
+        els.append(fib('f0'))
+        cx += [('roadm A', 'f0'), ('f0', 'rf'), ('rf', 'roadm B')]
+    elif variant == 'after another Raman span':
+        els.append(dict(deepcopy(rf), uid='rf0'))
+        cx += [('roadm A', 'rf0'), ('rf0', 'rf'), ('rf', 'roadm B')]
     else:
         els.append(fib('f1'))
         cx += [('roadm A', 'rf'), ('rf', 'f1'), ('f1', 'roadm B')]
